@@ -40,7 +40,18 @@ let c19_jhseq args =
         | Ret l -> hex_of_str l | Panic -> "PANIC" | OutOfFuel -> "OUT-OF-FUEL") (split_on ',' refs))
   | _ -> failwith "jhseq: bad args"
 
+(* jhfault: the writer fails in its k-th Write (one Write per record): that record reports the fault,
+   every other record is written; n - 1 lines in all (n when k > n) *)
+let c19_jhfault args =
+  match args with
+  | [k; n; fault] ->
+    let k = int_of_string k and n = int_of_string n in
+    let outs = List.init n (fun i -> if i + 1 = k then (if fault = "panic" then "p" else "e") else "ok") in
+    String.concat "," outs ^ " lines=" ^ string_of_int (if k >= 1 && k <= n then n - 1 else n)
+  | _ -> failwith "jhfault: bad args"
+
 let () =
+  Registry.register "jhfault" c19_jhfault;
   Registry.register "jhseq" c19_jhseq;
   Registry.register "jh" c19_jh;
   Registry.register "jhtree" c19_jhtree
